@@ -100,6 +100,11 @@ def _cases(tier, seed):
                                 for rep in ("mixed", "int_e"):
                                     yield dict(kind="blockmean", layout=[2, 2], sites=ms, order=order, ncomp=ncomp, w=w, unc=unc,
                                                region=region, center=center, rep=rep)
+                            if w and region == "inferred" and ncomp <= 2 and not center:
+                                # the two points that span the inferred region carry weight exactly 0 (round 9, seed C10-18: zero-weight points
+                                # dropped before the blocks are laid out): they still belong to the data, to its bounding box and to their blocks
+                                yield dict(kind="blockmean", layout=[2, 2], sites=ms, order=order, ncomp=ncomp, w=w, unc=unc,
+                                           region=region, center=center, wzero="pins")
                             if ncomp == 2 and not center and region == "given":
                                 # integer-valued weights / data passed with an integer dtype (round 8, seed C10-15: np.reciprocal of an
                                 # integer sum of weights)
@@ -194,6 +199,16 @@ def run(case, rec):
     if case["w"] == "uniform":
         # every point has the same uncertainty: still weights, not "no weights" (seed C10-9)
         wts = [np.full(npts, 0.25 * (c + 1)) for c in range(ncomp)]
+    if case.get("wzero") == "pins":
+        groups_ = {}
+        for i_, l_ in enumerate(labels):
+            groups_.setdefault(l_, []).append(i_)
+        if len(groups_[labels[0]]) < 2 or len(groups_[labels[-1]]) < 2 or labels[0] == labels[-1] and len(groups_[labels[0]]) < 3:
+            rec.trivial = True
+            return rec.skip("a pin point alone in its block: an all-zero weight sum is outside the space")
+        for w_ in wts:
+            w_[0] = 0.0
+            w_[-1] = 0.0
     rep = case.get("rep")
     if rep == "int_w" and wts is not None:
         wts = [np.round(w_ * 2.0) for w_ in wts]   # 2p+2, 2(n-p)+1, 2^(p+1): integer-valued, still different per point and component
